@@ -89,7 +89,26 @@ impl C07 {
     }
 
     fn mindustry(&self, cx: &mut Cx) {
-        let st = MindustryState::gen(&mut cx.rng);
+        let mut st = MindustryState::gen(&mut cx.rng);
+        // the largest reply the protocol allows is 500 bytes: drive that size and its neighbour exactly
+        if cx.rng.chance(1, 8) {
+            let target = *cx.rng.pick(&[500usize, 499, 498]);
+            let mut turn = 0;
+            while st.datagram().len() < target && turn < 2000 {
+                let f = match turn % 3 {
+                    0 => &mut st.d.description,
+                    1 => &mut st.d.host,
+                    _ => &mut st.d.map,
+                };
+                if f.len() < 250 {
+                    f.push('x');
+                }
+                turn += 1;
+            }
+            if st.datagram().len() == target {
+                cx.count(&format!("mindustry-reply-of-exactly-{target}-bytes"));
+            }
+        }
         let d = st.datagram();
         cx.eval();
         if d.len() > 500 {
